@@ -113,6 +113,46 @@ def uses_declared(text, declared, variant):
     return sorted(used & ruled)
 
 
+# ------------------------------------------------------------------ deterministic boundary worlds
+BOUNDARY_SHAPES = [
+    ("u32", "u32"), ("bool", "bool"), ("f64", "f64"), ("char", "char"), ("string", "string"), ("list-u8", "list<u8>"),
+    ("list-string", "list<string>"), ("record", "rec"), ("tuple2", "tuple<u8, string>"), ("tuple1", "tuple<u32>"),
+    ("option-u32", "option<u32>"), ("option-string", "option<string>"), ("option-option", "option<option<u8>>"),
+    ("result-t-e", "result<u32, string>"), ("result-t", "result<u32>"), ("result-e", "result<_, u32>"), ("result", "result"),
+    ("result-list", "result<list<u8>>"), ("result-e-string", "result<_, string>"), ("result-string", "result<string>"),
+    ("result-record", "result<rec>"), ("result-rec-enum", "result<rec, en>"), ("option-result", "option<result<u8>>"),
+    ("result-result", "result<result<u8>, result>"), ("enum", "en"), ("flags", "fl"), ("variant", "va"),
+    ("own", "res"), ("borrow", "borrow<res>"), ("result-own", "result<res>"), ("list-own", "list<res>"),
+    ("flist", "list<u8, 4>"), ("flist-string", "list<string, 2>"), ("result-flist", "result<list<u32, 2>>"),
+    ("map", "map<string, u32>"), ("future", "future<u32>"), ("future0", "future"), ("stream", "stream<u8>"),
+    ("result-stream", "result<stream<u8>>"), ("errctx", "error-context"), ("result-errctx", "result<_, error-context>"),
+    ("nothing", None),
+]
+
+
+def boundary_worlds():
+    """[(name, blocks)]: one small world per (shape, direction, sync/async): an interface whose two functions
+    return DIRECTLY the shape / take it as the only parameter, imported or exported.  No randomness."""
+    out = []
+    for name, ty in BOUNDARY_SHAPES:
+        for direction in ("import", "export"):
+            for asy in ("", "async "):
+                defs = [["  record rec {", "    a: u8,", "    b: string,", "  }"], ["  enum en {", "    x,", "    y,", "  }"],
+                        ["  flags fl {", "    p,", "    q,", "  }"], ["  variant va {", "    n,", "    s(string),", "  }"]]
+                if ty and "res" in ty.replace("result", ""):
+                    defs.append(["  resource res {", "  }"])
+                funcs = []
+                if ty is None:
+                    funcs.append([f"  r: {asy}func();"])
+                else:
+                    if not ty.startswith("borrow"):          # a borrow cannot be returned
+                        funcs.append([f"  r: {asy}func() -> {ty};"])
+                    funcs.append([f"  p: {asy}func(x: {ty});"])
+                blocks = [["package t:t;"], ["interface i {"]] + defs + funcs + [["}"], ["world w {"], [f"  {direction} i;"], ["}"]]
+                out.append((f"{name}:{direction}:{'async' if asy else 'sync'}", blocks))
+    return out
+
+
 def run_backends(c):
     # ------------------------------------------------------------------ 1. translator
     rc, out = sh([sys.executable, os.path.join(VERIF, "tools", "gen_panic_arms.py")], cwd=VERIF, timeout=300)
@@ -165,6 +205,30 @@ def run_backends(c):
     found = {}          # class -> (b, v, blocks, result)
     panics_declared = collections.Counter()
     reached_lines = collections.Counter()
+    # --- boundary worlds first: every backend x variant, every shape the backend does not declare unsupported
+    bw = boundary_worlds()
+    breqs, bmeta = [], []
+    for (b, v) in configs:
+        for name, blocks in bw:
+            text = witgen2.render(blocks)
+            if uses_declared(text, declared[b], v):
+                stats["boundary:skipped (declared unsupported)"] += 1; continue
+            breqs.append(f"{b} {v} {hx(text)}"); bmeta.append((b, v, name, blocks, text))
+    for (b, v, name, blocks, text), a in zip(bmeta, run_lines2(cmd, breqs, timeout=900)):
+        t = a.split(" ")
+        c.evaluations += 1
+        stats[f"boundary:{t[0]}"] += 1
+        if t[0] == "bad-wit":
+            c.broken.append((f"boundary world {name} is not valid WIT", unhx(t[1])[:300] + "\n" + text)); continue
+        c.nontrivial.add(f"{b}:{v}:boundary:{name}")
+        if t[0] in ("ok", "err"): continue
+        r = ("panic", unhx(t[1]), unhx(t[2])) if t[0] == "panic" else (t[0], t[0], "?:0")
+        cls = key_of(r)
+        if r[0] == "panic":
+            reached_lines[r[2].replace(REPO + "/", "")] += 1
+        stats["panic-on-supported-world:" + cls] += 1
+        if cls not in found:
+            found[cls] = (b, v, blocks, r)
     for prof, cfgs in sorted(profiles.items(), key=lambda kv: sorted(kv[0])):
         worlds = []
         opt = sorted(prof)
@@ -172,7 +236,7 @@ def run_backends(c):
             if i % 2 == 0: feats = set(prof)
             else: feats = {f for f in opt if c.rng.random() < 0.35}
             blocks, st = witgen2.gen_world2(c.rng, features=feats | {"_"}, max_ifaces=c.rng.choice([1, 1, 2]),
-                                            nfuncs=c.rng.choice([1, 2, 3]), max_depth=c.rng.choice([1, 2, 3]))
+                                            nfuncs=c.rng.choice([1, 2, 3]), max_depth=c.rng.choice([1, 2, 3]), direct_result=True)
             for k2, v2 in st.items(): stats["ty:" + k2] += v2
             worlds.append(blocks)
         texts = [witgen2.render(bk) for bk in worlds]
@@ -265,6 +329,7 @@ def run_backends(c):
         "feature_profiles": {",".join(sorted(set(witgen2.ALL_FEATURES) - set(p))) or "(none ruled out)": [f"{b}:{v}" for b, v in cf]
                              for p, cf in profiles.items()},
         "worlds_per_profile": n_per,
+        "boundary_worlds": len(bw),
         "panic_classes_on_supported_worlds": sorted(found),
         "panics_on_declared_unsupported_worlds": dict(panics_declared),
         "distribution": dict(sorted(stats.items())),
